@@ -21,6 +21,7 @@ type recorder struct {
 	trace  map[string][]string // enter/leave/handler events in the order they happened
 	strace map[string]string   // subscriber-decorator trace carried by the incoming message when the handler saw it
 	wraps  int                 // middleware constructor calls
+	ho     *hoCtl              // handover class: what a middleware constructor does while handlers stop (nil otherwise)
 }
 
 func newRecorder() *recorder {
@@ -44,6 +45,9 @@ func (r *recorder) middleware(id int) message.HandlerMiddleware {
 		r.mu.Lock()
 		r.wraps++
 		r.mu.Unlock()
+		if r.ho != nil {
+			r.ho.construct(id)
+		}
 		return func(m *message.Message) ([]*message.Message, error) {
 			r.add(m.UUID, fmt.Sprintf("e%d", id))
 			out, err := next(m)
@@ -263,6 +267,13 @@ type progStats struct {
 	reuseObs, reuseJudged      int // judged re-registered handlers (Obs: with own middlewares and a predecessor that had own middlewares)
 	logParks, pollFails, polls int // logger calls of router goroutines held back; failed AddHandler attempts of the retrying goroutine; Router.Handlers() polls
 	bystanders                 int // judged handlers that were registered but not started while a handler with a related name stopped
+	// class handover
+	hoRounds, hoStops, hoSubClose  int // handover steps; handlers stopped by them; of these by closing their subscriber
+	hoConcurrent, hoParked         int // steps whose stops were issued by a second goroutine during RunHandlers / after the starting handlers sat in a constructor
+	hoOpenAtReturn                 int // stopped handlers whose Stopped() was still open when RunHandlers returned
+	hoArrivals                     int // constructor calls that parked until the stopped handlers were gone
+	hoCtorBefore, hoCtorAfter      int // constructor calls of starting handlers made while a stopped handler's Stopped() was still open / after
+	hoJudged, hoShiftObs, hoNoPark int // judged handlers started by a handover step; of these with the stopped handler's entries before their own; parked steps in which a starting handler never reached its constructor
 }
 
 func (a *progStats) add(b progStats) {
@@ -298,6 +309,18 @@ func (a *progStats) add(b progStats) {
 	a.pollFails += b.pollFails
 	a.polls += b.polls
 	a.bystanders += b.bystanders
+	a.hoRounds += b.hoRounds
+	a.hoStops += b.hoStops
+	a.hoSubClose += b.hoSubClose
+	a.hoConcurrent += b.hoConcurrent
+	a.hoParked += b.hoParked
+	a.hoOpenAtReturn += b.hoOpenAtReturn
+	a.hoArrivals += b.hoArrivals
+	a.hoCtorBefore += b.hoCtorBefore
+	a.hoCtorAfter += b.hoCtorAfter
+	a.hoJudged += b.hoJudged
+	a.hoShiftObs += b.hoShiftObs
+	a.hoNoPark += b.hoNoPark
 }
 
 // tryAdd calls AddHandler / AddNoPublisherHandler and recovers a panic: (handle, nil) when the handler was added,
@@ -339,6 +362,9 @@ func runProgram(p *program, uid string, pg *progress) (obs []observation, st pro
 	lc := &logCtl{}
 	if p.HasReuse {
 		logger = harnessLogger{c: lc}
+	}
+	if p.HasHandover {
+		rec.ho = &hoCtl{}
 	}
 	r, err := message.NewRouter(message.RouterConfig{CloseTimeout: time.Hour}, logger)
 	if err != nil {
@@ -455,6 +481,8 @@ func runProgram(p *program, uid string, pg *progress) (obs []observation, st pro
 		st.events += len(got) + len(e.SDec) + len(o.GotPub)*len(e.PDec)
 		prefix := ""
 		switch {
+		case e.Handover:
+			prefix = "handover-"
 		case e.Reused:
 			prefix = "reuse-"
 		case rejectedHit[h]:
@@ -716,6 +744,104 @@ steps:
 			}
 			st.earlyStop++
 			rejectedHit[s.H] = true
+		case opHandover:
+			// Handlers stop (Stop / end of their subscription) and RunHandlers starts the handlers added since the last start call,
+			// with nobody waiting for Stopped() in between. What the middleware constructors do meanwhile is up to rec.ho.
+			var stopCh []chan struct{}
+			for _, h := range s.Stops {
+				stopCh = append(stopCh, handles[h].Stopped())
+			}
+			expectArrivals := 0
+			if s.Ctor == ctorPark {
+				for h := 0; h < nH; h++ {
+					if handles[h] == nil || delivered[h] {
+						continue
+					}
+					for _, id := range ex[h].MW {
+						if containsInt(s.Park, id) {
+							expectArrivals++
+							break
+						}
+					}
+				}
+			}
+			ep := rec.ho.arm(s, stopCh)
+			issue := func() {
+				for i, h := range s.Stops {
+					if s.StopKinds[i] == "subclose" {
+						subs[h].Close()
+					} else {
+						handles[h].Stop()
+					}
+				}
+			}
+			pg.set(desc, fmt.Sprintf("handover: stopping %v (%s) and RunHandlers, constructors %s", s.Stops, s.Issue, s.Ctor), false)
+			var err error
+			switch s.Issue {
+			case issueConcurrent:
+				st.hoConcurrent++
+				bar, dn := make(chan struct{}), make(chan struct{})
+				go func() {
+					defer close(dn)
+					<-bar
+					for i := 0; i < s.Jit[0]; i++ {
+						runtime.Gosched()
+					}
+					issue()
+				}()
+				close(bar)
+				for i := 0; i < s.Jit[1]; i++ {
+					runtime.Gosched()
+				}
+				err = r.RunHandlers(ctx)
+				<-dn
+			case issueParked:
+				st.hoParked++
+				err = r.RunHandlers(ctx)
+				if err == nil && expectArrivals > 0 {
+					// every starting handler reaches the constructor it parks in (it has nothing else to wait for); should one never
+					// get there (process quiescent) the stops are issued anyway and the judge says what its chain lacks
+					pg.set(desc, "handover: waiting for the starting handlers to reach their parking middleware constructor", false)
+					oc, _ := vlib.WaitUntil(func() bool { return ep.arrived() >= expectArrivals },
+						vlib.WaitOpts{Watchdog: vlib.WD.Watchdog, IgnoreFrames: []string{"props/c09.runBatch"}, NoTimerCheck: []string{"pubsub/sync.WaitGroupTimeout"}})
+					if oc != vlib.Done {
+						st.hoNoPark++
+					}
+				}
+				issue()
+			default: // issueBefore
+				issue()
+				err = r.RunHandlers(ctx)
+			}
+			for _, c := range stopCh {
+				if !vlib.IsClosed(c) {
+					st.hoOpenAtReturn++
+				}
+			}
+			pg.set(desc, fmt.Sprintf("handover: waiting for Stopped() of %v", s.Stops), false)
+			for _, c := range stopCh {
+				<-c
+			}
+			rec.ho.release(ep)
+			arr, before, after := ep.stats()
+			st.hoArrivals += arr
+			st.hoCtorBefore += before
+			st.hoCtorAfter += after
+			st.hoRounds++
+			st.hoStops += len(s.Stops)
+			for _, k := range s.StopKinds {
+				if k == "subclose" {
+					st.hoSubClose++
+				}
+			}
+			if err != nil {
+				inconcl = fmt.Sprintf("RunHandlers (handover): %v | program: %s", err, desc)
+				ok = false
+				break steps
+			}
+			if ok = startNew(false); !ok {
+				break steps
+			}
 		case opReuse:
 			old := handles[s.H]
 			hs := p.Handlers[s.N]
@@ -892,6 +1018,12 @@ steps:
 		if bystander[h] {
 			st.bystanders++
 		}
+		if e.Handover {
+			st.hoJudged++
+			if e.ShiftObs {
+				st.hoShiftObs++
+			}
+		}
 	}
 	rec.mu.Lock()
 	st.wraps = rec.wraps
@@ -915,6 +1047,107 @@ steps:
 	}
 	pg.set("", "", false)
 	return obs, st, viol, inconcl
+}
+
+func containsInt(v []int, x int) bool {
+	for _, y := range v {
+		if y == x {
+			return true
+		}
+	}
+	return false
+}
+
+// ---------------------------------------------------------------------------------------------
+// Handover class: what the middleware constructors do while handlers stop.
+//
+// A HandlerMiddleware is a func(HandlerFunc) HandlerFunc supplied by the user; the Router calls it from the starting handler's
+// goroutine when that handler builds its chain. It may take its time (set-up work), which is all this controller does: while an
+// epoch is armed every constructor call yields, sleeps, or - for the ids in park - blocks until the harness has seen Stopped() of
+// every handler that is stopping.
+
+type hoEpoch struct {
+	ctor   string
+	park   map[int]bool
+	gate   chan struct{}   // closed by release
+	stopCh []chan struct{} // Stopped() of the handlers that stop in this step
+
+	mu            sync.Mutex
+	arrivals      int
+	before, after int
+}
+
+type hoCtl struct {
+	mu sync.Mutex
+	ep *hoEpoch
+}
+
+func (c *hoCtl) arm(s step, stopCh []chan struct{}) *hoEpoch {
+	ep := &hoEpoch{ctor: s.Ctor, park: map[int]bool{}, gate: make(chan struct{}), stopCh: stopCh}
+	for _, id := range s.Park {
+		ep.park[id] = true
+	}
+	c.mu.Lock()
+	c.ep = ep
+	c.mu.Unlock()
+	return ep
+}
+
+func (c *hoCtl) release(ep *hoEpoch) {
+	c.mu.Lock()
+	if c.ep == ep {
+		c.ep = nil
+	}
+	c.mu.Unlock()
+	close(ep.gate)
+}
+
+func (ep *hoEpoch) arrived() int {
+	ep.mu.Lock()
+	defer ep.mu.Unlock()
+	return ep.arrivals
+}
+
+func (ep *hoEpoch) stats() (arrivals, before, after int) {
+	ep.mu.Lock()
+	defer ep.mu.Unlock()
+	return ep.arrivals, ep.before, ep.after
+}
+
+func (c *hoCtl) construct(id int) {
+	c.mu.Lock()
+	ep := c.ep
+	c.mu.Unlock()
+	if ep == nil {
+		return
+	}
+	open := false
+	for _, ch := range ep.stopCh {
+		if !vlib.IsClosed(ch) {
+			open = true
+		}
+	}
+	ep.mu.Lock()
+	if open {
+		ep.before++
+	} else {
+		ep.after++
+	}
+	parks := ep.ctor == ctorPark && ep.park[id] && !vlib.IsClosed(ep.gate)
+	if parks {
+		ep.arrivals++
+	}
+	ep.mu.Unlock()
+	switch {
+	case parks:
+		<-ep.gate
+	case ep.ctor == ctorYield:
+		for i := 0; i <= id%4; i++ {
+			runtime.Gosched()
+		}
+	case ep.ctor == ctorSlow:
+		vlib.TimerWait(time.Duration(100+(id*37)%400) * time.Microsecond)
+	}
 }
 
 // ids from poisonBase on belong to middlewares / decorators the caller wrote into its own argument slice after a
@@ -947,7 +1180,7 @@ func startPhase(p *program, h int) int {
 			if s.N == h {
 				return ph
 			}
-		case opRun, opRunH:
+		case opRun, opRunH, opHandover:
 			ph++
 		}
 	}
